@@ -102,6 +102,12 @@ def instantiate(name, terms, ip=None):
         f = vocab_sym.iprodc_f
         from .models import mul_f
         return [z3.Implies(kk >= 0, f(c, items.arr, kk + 1) == mul_f(f(c, items.arr, kk), vocab_sym.sdec_f(z3.Select(items.arr, kk))))]
+    if name == 'zeros_step':      # zeros(k+1) == zeros(k) + b'\\x00'  for k >= 0
+        from . import vocab_sym
+        kk = zint(terms[0])
+        z = vocab_sym.zeros_f
+        return [z3.Implies(kk >= 0, z(kk + 1) == z3.Concat(z(kk), z3.Unit(z3.BitVecVal(0, 8)))),
+                z3.Length(z(kk + 1)) == z3.If(kk + 1 < 0, 0, kk + 1), z3.Length(z(kk)) == z3.If(kk < 0, 0, kk)]
     if name == 'xor_zero':        # P-XOR: the little-endian value of a xor b is zero iff a == b (equal lengths)
         p, q = bexpr(terms[0]), bexpr(terms[1])
         xf = z3.Function('xor_f', BYTES, BYTES, BYTES)
